@@ -72,7 +72,11 @@ def rand_class(rng, nmax=12, dup=False, mixed=False):
             decos = ["classmethod"]
         elif r < 0.34:
             decos = [rng.choice(["property", "abstractmethod", "cache"])]
-        if decos and decos[0] in ("staticmethod", "classmethod"):
+        # stacked decorators: the static/class marker may sit above, below or between other decorators
+        if decos and rng.random() < 0.4:
+            for _ in range(rng.choice([1, 1, 2])):
+                decos.insert(rng.randint(0, len(decos)), rng.choice(["final", "abstractmethod", "cache", "override", "property"]))
+        if set(decos) & {"staticmethod", "classmethod"}:
             statics.add(nm_)
         body = []
         for _ in range(int(rng.random() * density * 2 + rng.random())):
